@@ -8,6 +8,7 @@ template <size_t D> using src_t = hyb_t<unsigned,64,D>;
 #define MK(D) src_t<D> a; if (!mk##D(a,shape,data)) return -1
 #define OBSV(v) observe(v, idx, nidx, oshape, odim, out)
 #define FOR_DIMS(M) M(1) M(2) M(3)
+#define FOR_DIMS4(M) M(1) M(2) M(3) M(4)
 // observe a (maybe-)view with a fixed-length index (std::array<size_t,N>), for views whose index type must have a compile-time length
 template <size_t N, typename V, typename T> static inline int observe_fixed(const V& mv, const size_t* idx, size_t* oshape, size_t* odim, T* out){
   if (!nm::has_value(mv)) return 0;
